@@ -1636,6 +1636,17 @@ func (c *c19) paramOnlyRead(info *types.Info, call *ast.CallExpr, argIdx int, de
 	return "", true
 }
 
+// c19StripInst removes an explicit instantiation from a call's function operand.
+func c19StripInst(fun ast.Expr) ast.Expr {
+	if ix, ok := ast.Unparen(fun).(*ast.IndexExpr); ok {
+		return ix.X
+	}
+	if ix, ok := ast.Unparen(fun).(*ast.IndexListExpr); ok {
+		return ix.X
+	}
+	return fun
+}
+
 // pathFunc returns the function declaration a path (innermost first) lies in.
 func pathFunc(path []ast.Node) (*ast.FuncDecl, bool) {
 	for _, n := range path {
@@ -1839,6 +1850,13 @@ func (c *c19) classifyUse(info *types.Info, id *ast.Ident, path []ast.Node, dept
 					return "rows removed by " + b.Name()
 				}
 			}
+		}
+		// standard-library functions that write or re-order their first operand
+		if fn := tables.StaticCallee(info, &ast.CallExpr{Fun: c19StripInst(p.Fun)}); len(p.Args) > 0 && ast.Node(p.Args[0]) == cur &&
+			(tables.IsPkgFunc(fn, "maps", "Copy", "DeleteFunc", "Insert") ||
+				tables.IsPkgFunc(fn, "slices", "Sort", "SortFunc", "SortStableFunc", "Reverse", "Delete", "DeleteFunc", "Insert", "Replace", "Compact", "CompactFunc") ||
+				tables.IsPkgFunc(fn, "sort", "Slice", "SliceStable", "Sort", "Stable", "Strings", "Ints", "Float64s")) {
+			return "rows written or re-ordered by " + fn.FullName()
 		}
 		// standard-library functions that only read their operand (and do not retain it)
 		if fn := tables.StaticCallee(info, p); tables.IsPkgFunc(fn, "maps", "Clone") ||
